@@ -106,6 +106,9 @@ def step? : List String → Option String
   | ["jpg-acsyms", acs] => some <| match parseInts acs with
     | some ac => "ok " ++ " ".intercalate ((JpegAc.encAC ac 0).map (fun s => s!"{s.1}:{s.2}"))
     | none => "bad-op"
+  | ["jpg-dri", a, b] => some <| match ints? [a, b] with
+    | some [a, b] => s!"ok {Gen.JpegBaseline.parseDRI.restartInt a b}"
+    | _ => "bad-op"
   | ["jpg-detect", hx] => some s!"ok {Dct.detectBitDepth (hexToBytes hx)}"
   | ["jpg-rstfilter-tie"] => some "ok true"
   | ["jpg-repack-len", w, h] => some <| match nats? [w, h] with
